@@ -254,6 +254,9 @@ def const_(run, vm):
         run.violated('CONST', 'gralloc overflow test', ga[0].where() if ga else '', 'gralloc<T> no longer checks n * sizeof(T) for overflow before malloc')
 
 
+from collections import Counter
+
+
 def namebound(run, fx):
     """NameTable::getName reads the string of the chosen record at m_nameData + offset, length bytes, both taken from the font at
     query time: the read pointer is formed only under a dominating test  offset + length <= m_nameDataLength  on the full-width
@@ -301,6 +304,49 @@ def namebound(run, fx):
                          'with offset + length beyond the table is read out of bounds' % (' + '.join(sorted(off)), seen or 'none'))
     if n < 1:
         run.broken('VALIDATOR', 'name string read pointer', 'no m_nameData + offset pointer found in NameTable::getName', fn.where())
+    # ... and m_nameDataLength, the bound of that test, is what is left of the table behind the start of the string storage: wherever a
+    # constructor sets m_nameData = table + off it sets m_nameDataLength to (a truncation of) length - off, as linear forms
+    inst = 'the string storage ends where the name table ends'
+    found = 0
+    for ct in fx.fns_named('graphite2::NameTable::NameTable'):
+        if ct.f.get('implicit'):
+            continue
+        params = {p_.get('n') for p_ in (ct.f.get('params') or [])}
+        data_st = [e for _, e in ct.elements() if e['k'] == 'BinaryOperator' and e.get('op') == '=' and ct.render(ct.N(e['c'][0])).endswith('m_nameData')]
+        len_st = [e for _, e in ct.elements() if e['k'] == 'BinaryOperator' and e.get('op') == '=' and ct.render(ct.N(e['c'][0])).endswith('m_nameDataLength')]
+        if not data_st:
+            continue
+        if not len_st:
+            run.violated('VALIDATOR', inst, ct.where(), 'NameTable::NameTable sets m_nameData but never m_nameDataLength')
+            found += 1
+            continue
+        for ds in data_st:
+            t_, c_ = linear.lin(ct, ct.strip_all_casts(ct.N(ds['c'][1])), through_unsigned=True)
+            bases = set()
+            for _, e2 in ct.elements():
+                if e2['k'] == 'BinaryOperator' and e2.get('op') == '=' and ct.render(ct.N(e2['c'][0])).endswith('m_table'):
+                    bases |= set(linear.lin(ct, ct.strip_all_casts(ct.N(e2['c'][1])), through_unsigned=True)[0])
+            offs = {k_: v_ for k_, v_ in t_.items() if k_ not in bases and '*' not in k_ and not k_.endswith(('pdata', 'data', 'm_table'))}
+            ptrs = {k_: v_ for k_, v_ in t_.items() if k_ not in offs}
+            if len(ptrs) != 1 or not offs:
+                continue
+            for ls in len_st:
+                found += 1
+                inner = ct.strip_all_casts(ct.N(ls['c'][1]))
+                lt, lc = linear.lin(ct, inner, through_unsigned=True)
+                rest = Counter(lt)
+                for k_, v_ in offs.items():
+                    rest[k_] += v_
+                rest = {k_: v_ for k_, v_ in rest.items() if v_}
+                total = lc + c_
+                if len(rest) == 1 and list(rest.values()) == [1] and list(rest)[0].split(':')[0] in params and total <= 0:
+                    run.held('VALIDATOR', inst, ct.loc(ls), 'm_nameData = table + (%s), m_nameDataLength = %s' % (' + '.join(sorted(offs)), ct.render(inner)))
+                else:
+                    run.violated('VALIDATOR', inst, ct.loc(ls), 'NameTable::NameTable puts the string storage at table + (%s) but sets m_nameDataLength = %s, which is not the table length minus that offset: '
+                                 'getName\'s test offset + length <= m_nameDataLength then accepts records that reach past the end of the name table, and the label is built from bytes behind it' %
+                                 (' + '.join(sorted(offs)), ct.render(ct.N(ls['c'][1]))))
+    if not found:
+        run.broken('VALIDATOR', inst, 'no constructor of NameTable sets m_nameData = table + offset and m_nameDataLength', '')
 
 
 def checkafteruse(run, fx):
